@@ -71,6 +71,7 @@ type c02Node struct {
 	CloudENICut int      `json:"cloud_eni_cut,omitempty"`    // the cloud admits this many interfaces fewer than declared
 	Synced      bool     `json:"synced,omitempty"`           // initial record carries a future NextSyncOpenAPITime
 	Lenient     bool     `json:"lenient_describe,omitempty"` // a by-id Describe with an instance id also answers interfaces attached to no instance
+	KeepCache   bool     `json:"keep_vsw_cache,omitempty"`   // the settle phase starts before the controller's vSwitch cache entries (10 min TTL) expire
 	NoRuntime   bool     `json:"no_runtime,omitempty"`       // the node's NodeRuntime object does not exist until the daemon first reports (control plane upgraded first)
 }
 
@@ -214,6 +215,15 @@ func c02GenNode(t *rapid.T, mode string) c02Node {
 		case 2: // one option of the zone has plenty, the others are as drawn (exhausted, nearly exhausted, ...)
 			k := rapid.IntRange(0, len(n.VSw)-1).Draw(t, "amplevsw")
 			n.VSw[k].Free, n.VSw[k].OtherZone = 500, false
+			if n.V6 && rapid.Bool().Draw(t, "nearlyexhausted") {
+				// IPv6 side: the other options hold one or a few addresses, so the first
+				// interface placed there uses the vSwitch up while the cached count stays positive
+				for i := range n.VSw {
+					if i != k {
+						n.VSw[i].Free = rapid.SampledFrom([]int{1, 1, 3}).Draw(t, "fewfree")
+					}
+				}
+			}
 		}
 	}
 	n.Policy = rapid.SampledFrom([]string{"ordered", "random", "most"}).Draw(t, "policy")
@@ -226,6 +236,9 @@ func c02GenNode(t *rapid.T, mode string) c02Node {
 	// the real API's answer to "describe id X of instance I" for a detached X cannot be
 	// confirmed offline: quantify over both semantics
 	n.Lenient = rapid.Bool().Draw(t, "lenient")
+	if mode == "C08" {
+		n.KeepCache = rapid.IntRange(0, 3).Draw(t, "keepcache") > 0
+	}
 	if mode == "C02" {
 		// node taken over from a previous version: the daemon has not published a NodeRuntime yet
 		n.NoRuntime = rapid.IntRange(0, 3).Draw(t, "noruntime") == 0
@@ -512,6 +525,9 @@ type c02World struct {
 	writeLost                                     bool              // a record write failed and no later pass has persisted a full sync yet
 	efloCollisionENI                              map[string]bool   // ... per interface
 	efloCollision                                 bool              // a half-created EFLO address was answered while the record already held one under the empty key
+	refused                                       map[string]int    // interface -> call seq of an assign the cloud refused with a count-exceeded code; cleared by the next full sync answer
+	vswRefused                                    map[string]int    // vSwitch -> call seq of a create / assign the cloud refused for lack of addresses; cleared when the controller's vSwitch cache expires or is rebuilt
+	passFirstSeq                                  int               // sequence number of the first cloud call of the running pass
 	drifted                                       map[string]string // addresses removed in the cloud out of band (addr -> interface) since the last persisted full sync
 	failedWrites                                  int               // 1 if the latest pass whose record write failed had changed the cloud (the controller then must resync)
 	settleTail                                    [][]cloudctl.Call // calls of the last settle rounds
@@ -538,7 +554,7 @@ func c02Hygiene() {
 func c02NewWorld(c *vt.Ctx, s c02Scenario) *c02World {
 	c02Hygiene()
 	w := &c02World{c: c, s: s, ctx: context.Background(), live: map[int]*c02LivePod{}, everPod: map[string]bool{},
-		k: map[string]*c08KENI{}, seenFault: map[string]bool{}, toldCreated: map[string]bool{}, deleteFailed: map[string]bool{}, everRecorded: map[string]bool{}, writeFailAtCreate: map[string]bool{}, drifted: map[string]string{}, clock: time.Now().Add(-24 * time.Hour).Truncate(time.Second)}
+		k: map[string]*c08KENI{}, seenFault: map[string]bool{}, toldCreated: map[string]bool{}, deleteFailed: map[string]bool{}, everRecorded: map[string]bool{}, writeFailAtCreate: map[string]bool{}, drifted: map[string]string{}, refused: map[string]int{}, vswRefused: map[string]int{}, clock: time.Now().Add(-24 * time.Hour).Truncate(time.Second)}
 	n := s.Node
 
 	// ---- cloud
